@@ -244,13 +244,18 @@ class HTTPStream:
 
             elif (
                 message["type"] == "http.response.trailers"
-                and self.scope["http_version"] in TRAILERS_VERSIONS
                 and self.state == ASGIHTTPState.TRAILERS
             ):
-                # Sent together (they end the response) with the last of them
+                # Sent together (they end the response) with the last of
+                # them. Announced to a HTTP/1 client they are not sent, the
+                # response is ended all the same.
                 self.trailers.extend(build_and_validate_headers(message["headers"]))
                 if not message.get("more_trailers", False):
-                    if (b"te", b"trailers") in self.scope["headers"] and len(self.trailers) > 0:
+                    if (
+                        self.scope["http_version"] in TRAILERS_VERSIONS
+                        and (b"te", b"trailers") in self.scope["headers"]
+                        and len(self.trailers) > 0
+                    ):
                         await self.send(Trailers(stream_id=self.stream_id, headers=self.trailers))
                     await self._send_closed()
             else:
